@@ -13,6 +13,9 @@ Parts
   datetime-naive   boundary dates x boundary times (+ every day of years 1 and 9999): from/to_naive_datetime, all calendars
   datetime-aware   x every whole-minute offset in +/-18 h (+/-1 s, +/-59 s): OffsetDateTime and Instant bridges
   timedelta        Duration <-> timedelta alphabet (range ends, +/-1 us around days), Offset <-> timedelta all 129 601 seconds
+  ambient          a slice of every part repeated in worker processes whose local time zone (TZ + time.tzset()) is JST-9 and
+                   EST5EDT: conversions must not depend on the ambient zone of the process
+Every bridge is also called with its documented parameter names as keywords (same value as the positional call).
 """
 from __future__ import annotations
 
